@@ -25,3 +25,190 @@ Qed.
 
 Lemma base2b_length : forall x b out, length (base2b x b out) = out.
 Proof. intros. apply base2b_loop_length. Qed.
+
+(* ---------- big-endian values ---------- *)
+Lemma le_val_app a b : le_val (a ++ b) = le_val a + 256 ^ N.of_nat (length a) * le_val b.
+Proof.
+  induction a as [|x a IH].
+  - cbn [app le_val length]. change (N.of_nat 0) with 0. rewrite N.pow_0_r. lia.
+  - cbn [app le_val]. rewrite IH. replace (N.of_nat (length (x :: a))) with (1 + N.of_nat (length a)) by (cbn [length]; lia).
+    rewrite N.pow_add_r. change (256 ^ 1) with 256. lia.
+Qed.
+
+Lemma be_val_app c x : be_val (c ++ x) = be_val c * 256 ^ N.of_nat (length x) + be_val x.
+Proof. unfold be_val. rewrite rev_app_distr, le_val_app, rev_length. lia. Qed.
+
+Lemma be_val_cons b x : be_val (b :: x) = b * 256 ^ N.of_nat (length x) + be_val x.
+Proof. change (b :: x) with ([b] ++ x). rewrite be_val_app. unfold be_val at 1. simpl. lia. Qed.
+
+Lemma be_val_lt x : wfb x -> be_val x < 256 ^ N.of_nat (length x).
+Proof.
+  induction x as [|b x IH]; intros H.
+  - simpl. reflexivity.
+  - inversion H; subst. rewrite be_val_cons. specialize (IH H3).
+    replace (N.of_nat (length (b :: x))) with (1 + N.of_nat (length x)) by (cbn [length]; lia).
+    rewrite N.pow_add_r. change (256 ^ 1) with 256. nia.
+Qed.
+
+(* ---------- toInt ---------- *)
+Lemma toInt_loop_val : forall k x total, (k <= length x)%nat -> wfb x ->
+  total * 256 ^ N.of_nat k + (256 ^ N.of_nat k - 1) < 2 ^ 64 ->
+  toInt_loop x k total = total * 256 ^ N.of_nat k + be_val (firstn k x).
+Proof.
+  induction k as [|k IH]; intros x total Hk Hw Hb.
+  - simpl. unfold be_val. simpl. lia.
+  - destruct x as [|b x]; [simpl in Hk; lia|]. inversion Hw; subst.
+    cbn [toInt_loop firstn]. rewrite be_val_cons, firstn_length_le by (simpl in Hk; lia).
+    replace (N.of_nat (S k)) with (1 + N.of_nat k) in * by lia.
+    rewrite N.pow_add_r in *. change (256 ^ 1) with 256 in *.
+    assert (P0 : 0 < 256 ^ N.of_nat k) by (apply N.neq_0_lt_0, N.pow_nonzero; lia).
+    assert (E : u64 (256 * total + b) = 256 * total + b).
+    { unfold u64. apply N.mod_small. change 18446744073709551616 with (2 ^ 64). nia. }
+    rewrite E. rewrite IH; [lia|simpl in Hk; lia|auto|nia].
+Qed.
+
+(* toInt is the big-endian value of the first n bytes (n <= 8: no uint64 wrap) *)
+Theorem toInt_be_val : forall x k, (k <= 8)%nat -> (k <= length x)%nat -> wfb x -> toInt x k = be_val (firstn k x).
+Proof.
+  intros x k H8 Hk Hw. unfold toInt. rewrite toInt_loop_val; auto; [lia|].
+  assert (256 ^ N.of_nat k <= 256 ^ 8) by (apply N.pow_le_mono_r; lia).
+  change (256 ^ 8) with (2 ^ 64) in H. assert (0 < 256 ^ N.of_nat k) by (apply N.neq_0_lt_0, N.pow_nonzero; lia). lia.
+Qed.
+
+(* toInt inverts toByte on the bytes toByte writes *)
+Theorem toInt_toByte : forall v k, (k <= 8)%nat -> toInt (toByte v k) k = (v mod 2 ^ 32) mod 256 ^ N.of_nat k.
+Proof.
+  intros v k H8. unfold toByte. rewrite toInt_be_val; auto using be_bytes_wf; [|rewrite be_bytes_length; lia].
+  rewrite firstn_all2 by (rewrite be_bytes_length; lia). apply be_val_be_bytes.
+Qed.
+
+(* ---------- base2b: the value equation ---------- *)
+Definition pw (k : nat) : N := 2 ^ N.of_nat k.
+Lemma pw_add a b : pw (a + b) = pw a * pw b.
+Proof. unfold pw. rewrite Nat2N.inj_add, N.pow_add_r. reflexivity. Qed.
+Lemma pw_pos k : 0 < pw k.
+Proof. apply N.neq_0_lt_0, N.pow_nonzero. lia. Qed.
+Lemma pw_256 k : 256 ^ N.of_nat k = pw (8 * k).
+Proof. unfold pw. rewrite Nat2N.inj_mul, N.pow_mul_r. reflexivity. Qed.
+Lemma pw_le a b : (a <= b)%nat -> pw a <= pw b.
+Proof. intros. unfold pw. apply N.pow_le_mono_r; lia. Qed.
+
+(* (y mod 2^32) mod 2^k = y mod 2^k for k <= 32 *)
+Lemma u32_mod_pw y k : (k <= 32)%nat -> u32 y mod pw k = y mod pw k.
+Proof.
+  intros H. unfold u32. change 4294967296 with (pw 32).
+  replace 32%nat with (k + (32 - k))%nat by lia. rewrite pw_add.
+  pose proof (pw_pos k). pose proof (pw_pos (32 - k)).
+  rewrite N.mod_mul_r by lia. rewrite N.add_comm, N.mul_comm. apply N.mod_add. lia.
+Qed.
+
+(* (t*256 + c) mod 2^(s+8) = (t mod 2^s)*256 + c *)
+Lemma shift_in_byte t c s : c < 256 -> (t * 256 + c) mod pw (s + 8) = (t mod pw s) * 256 + c.
+Proof.
+  intros Hc. rewrite Nat.add_comm, pw_add. change (pw 8) with 256.
+  pose proof (pw_pos s).
+  rewrite N.mod_mul_r by lia.
+  replace ((t * 256 + c) mod 256) with c by (rewrite N.add_comm, N.mod_add by lia; symmetry; apply N.mod_small; auto).
+  replace ((t * 256 + c) / 256) with t by (rewrite N.div_add_l by lia; rewrite (N.div_small c 256) by auto; lia).
+  lia.
+Qed.
+
+(* the fill loop: consumes a prefix c of x, bits' = bits + 8|c| >= b, and the
+   low bits' bits of total' are the low bits bits of total followed by c *)
+Lemma b2b_fill_spec : forall fuel x b bits total,
+  wfb x -> (b <= bits + 8 * fuel)%nat -> (b <= bits + 8 * length x)%nat -> (b + 7 <= 32)%nat ->
+  exists c x' bits' total',
+    b2b_fill fuel x b bits total = (x', bits', total') /\ x = c ++ x' /\ bits' = (bits + 8 * length c)%nat /\
+    (b <= bits')%nat /\ (bits' <= Nat.max bits (b + 7))%nat /\
+    total' mod pw bits' = (total mod pw bits) * 256 ^ N.of_nat (length c) + be_val c.
+Proof.
+  induction fuel as [|fuel IH]; intros x b bits total Hw Hf Hx Hb.
+  - exists [], x, bits, total. simpl. repeat split; try lia. unfold be_val; simpl. lia.
+  - cbn [b2b_fill]. destruct (Nat.ltb_spec bits b) as [L|L].
+    + destruct x as [|c0 x1]; [simpl in Hx; lia|]. inversion Hw; subst.
+      destruct (IH x1 b (bits + 8)%nat (u32 (total * 256 + c0)) H2 ltac:(lia) ltac:(simpl in Hx; lia) Hb)
+        as (c & x' & bits' & total' & E & Ex & Eb & Hge & Hle & Hv).
+      exists (c0 :: c), x', bits', total'. rewrite E. repeat split; auto.
+      * simpl. congruence.
+      * simpl. lia.
+      * lia.
+      * rewrite Hv, u32_mod_pw by lia. rewrite shift_in_byte by auto.
+        rewrite be_val_cons. replace (N.of_nat (length (c0 :: c))) with (1 + N.of_nat (length c)) by (cbn [length]; lia).
+        rewrite N.pow_add_r. change (256 ^ 1) with 256. lia.
+    + exists [], x, bits, total. simpl. repeat split; try lia. unfold be_val; simpl. lia.
+Qed.
+
+Definition digits_val (b : nat) (ds : list N) : N := fold_left (fun acc d => acc * pw b + d) ds 0.
+
+Lemma digits_fold b ds : forall acc,
+  fold_left (fun acc d => acc * pw b + d) ds acc = acc * pw (b * length ds) + digits_val b ds.
+Proof.
+  unfold digits_val. induction ds as [|d ds IH]; intros acc.
+  - simpl. rewrite Nat.mul_0_r. change (pw 0) with 1. lia.
+  - cbn [fold_left length]. rewrite IH, (IH (0 * pw b + d)).
+    replace (b * S (length ds))%nat with (b + b * length ds)%nat by lia. rewrite pw_add. lia.
+Qed.
+
+(* (t / 2^s) mod 2^b and t mod 2^s in terms of r = t mod 2^(s+b) *)
+Lemma digit_split t s b : (t / pw s) mod pw b = (t mod pw (s + b)) / pw s /\ t mod pw s = (t mod pw (s + b)) mod pw s.
+Proof.
+  pose proof (pw_pos s). pose proof (pw_pos b).
+  rewrite pw_add. rewrite N.mod_mul_r by lia. split.
+  - rewrite N.mul_comm, N.div_add by lia. rewrite (N.div_small (t mod pw s)) by (apply N.mod_lt; lia). lia.
+  - rewrite N.mul_comm, N.mod_add by lia. rewrite N.mod_mod by lia. reflexivity.
+Qed.
+
+Lemma base2b_loop_val : forall out x b bits total,
+  wfb x -> (b + 7 <= 32)%nat -> (bits <= 7)%nat -> (out * b <= bits + 8 * length x)%nat ->
+  digits_val b (base2b_loop out x b bits total)
+  = ((total mod pw bits) * 256 ^ N.of_nat (length x) + be_val x) / pw (bits + 8 * length x - out * b).
+Proof.
+  induction out as [|out IH]; intros x b bits total Hw Hb Hbits Hx.
+  - cbn [base2b_loop]. unfold digits_val. simpl fold_left. symmetry. apply N.div_small.
+    rewrite Nat.mul_0_l, Nat.sub_0_r, pw_add, <- pw_256.
+    pose proof (be_val_lt x Hw). pose proof (N.mod_lt total (pw bits) ltac:(pose proof (pw_pos bits); lia)). nia.
+  - cbn [base2b_loop].
+    destruct (b2b_fill_spec (S b) x b bits total Hw ltac:(lia) ltac:(lia) Hb)
+      as (c & x' & bits' & total' & E & Ex & Eb & Hge & Hle & Hv).
+    rewrite E. subst x. apply wfb_app in Hw. destruct Hw as [Hwc Hwx'].
+    rewrite app_length in *.
+    set (s := (bits' - b)%nat). assert (Es : bits' = (s + b)%nat) by (unfold s; lia).
+    unfold digits_val. cbn [fold_left]. rewrite digits_fold. fold (digits_val b).
+    rewrite base2b_loop_length.
+    rewrite IH by (auto; unfold s; lia).
+    rewrite N.shiftr_div_pow2, N.land_ones. fold (pw s). fold (pw b).
+    destruct (digit_split total' s b) as [D1 D2]. rewrite <- Es in D1, D2. rewrite D1, D2.
+    set (r' := total' mod pw bits') in *.
+    (* the whole remaining bit string *)
+    rewrite be_val_app.
+    replace ((total mod pw bits) * 256 ^ N.of_nat (length c + length x') + (be_val c * 256 ^ N.of_nat (length x') + be_val x'))
+      with (r' * 256 ^ N.of_nat (length x') + be_val x')
+      by (rewrite Hv, Nat2N.inj_add, N.pow_add_r; lia).
+    set (L := 256 ^ N.of_nat (length x')).
+    set (W'' := (r' mod pw s) * L + be_val x').
+    pose proof (pw_pos s) as Ps.
+    assert (Er : r' = (r' / pw s) * pw s + r' mod pw s) by (rewrite N.mul_comm; apply N.div_mod; lia).
+    assert (HW : r' * L + be_val x' = (r' / pw s) * pw (s + 8 * length x') + W'').
+    { unfold W''. rewrite pw_add, <- pw_256. fold L. rewrite Er at 1. lia. }
+    rewrite HW.
+    set (S' := (s + 8 * length x' - out * b)%nat).
+    replace (bits + 8 * (length c + length x') - S out * b)%nat with S' by (unfold S'; lia).
+    replace (s + 8 * length x')%nat with (out * b + S')%nat by (unfold S'; lia).
+    rewrite pw_add. pose proof (pw_pos S').
+    rewrite N.mul_assoc, N.div_add_l by lia.
+    replace (0 * pw b + r' / pw s) with (r' / pw s) by lia.
+    replace (b * out)%nat with (out * b)%nat by lia. reflexivity.
+Qed.
+
+(* FIPS 205 Algorithm 4: the outLen digits base2b returns are the first
+   outLen*b bits of x read as a big-endian number in base 2^b — for every b up
+   to 25 the uint32 accumulator of the Go loop never loses a bit that matters *)
+Theorem base2b_value : forall x b out,
+  wfb x -> (b <= 25)%nat -> (out * b <= 8 * length x)%nat ->
+  digits_val b (base2b x b out) = be_val x / 2 ^ N.of_nat (8 * length x - out * b)
+  /\ Forall (fun d => d < 2 ^ N.of_nat b) (base2b x b out) /\ length (base2b x b out) = out.
+Proof.
+  intros x b out Hw Hb Hx. split; [|split; [apply base2b_lt|apply base2b_length]].
+  unfold base2b. rewrite base2b_loop_val by (auto; lia).
+  change (pw 0) with 1. rewrite N.mod_1_r. simpl (0 * _ + _). reflexivity.
+Qed.
